@@ -954,6 +954,11 @@ class APIConnection:
             # since we know the connection is still alive
             self._send_pending_ping = False
 
+        if self.connection_state is CONNECTION_STATE_CLOSED:
+            # Frames that were buffered behind the one that closed the
+            # connection must not reach the subscribers anymore
+            return
+
         if (handlers := self._message_handlers.get(msg_type)) is not None:
             handlers_copy = handlers.copy()
             for handler in handlers_copy:
